@@ -506,6 +506,14 @@ def cfStep (st : CfSt) (line : String) (t : Tally) : Except String (CfSt × Tall
       .error s!"C20: the statistics record {natOf rest "loadsrec"} loads (successes + failures), the loaders were invoked {natOf rest "invocations"} times"
     else .ok (st, t.bump "stats_points")
   | ["kill", k, s] => .ok ({ st with kills := (k.toNat!, s.toNat!) :: st.kills }, t.bump "kills")
+  | "final" :: rest =>
+    -- C09: the result of the load that the invalidation superseded must never end up in the cache
+    let present := (kvOf rest "present").getD "" == "true"
+    if present && (kvOf rest "firstoutcome").getD "" == "ok" && natOf rest "value" == natOf rest "stale" then
+      .error s!"C09: key {natOf rest "key"} holds {natOf rest "value"}, the result of a load that an invalidation had superseded"
+    else if natOf rest "loads" == 2 && (kvOf rest "secondoutcome").getD "" == "ok" && !(present && natOf rest "value" == natOf rest "fresh") then
+      .error s!"C09/C10: after the second (valid) load succeeded with {natOf rest "fresh"} the key reads present={present} value={natOf rest "value"}"
+    else .ok (st, t.bump "supersede_finals")
   | "supersede" :: rest =>
     -- while the second load (started after the invalidation) is in flight, a third caller must join it
     if (kvOf rest "second").getD "" == "true" && natOf rest "loads_while_second_in_flight" > 2 then
